@@ -1,5 +1,5 @@
 use std::fmt;
-use std::io::ErrorKind;
+use std::io::{self, ErrorKind};
 use std::ptr;
 use std::sync::atomic::{AtomicBool, AtomicPtr, Ordering};
 use std::sync::Arc;
@@ -10,8 +10,8 @@ use crate::coroutine_impl::{co_cancel_data, run_coroutine, CoroutineImpl, EventS
 use crate::scheduler::get_scheduler;
 use crate::sync::atomic_dur::AtomicDuration;
 use crate::sync::AtomicOption;
-use crate::timeout_list::TimeoutHandle;
-use crate::yield_now::{get_co_para, yield_now, yield_with};
+use crate::timeout_list::{now, TimeoutHandle};
+use crate::yield_now::{get_co_para, set_co_para, yield_now, yield_with};
 
 #[derive(Debug, Copy, Clone, Eq, PartialEq)]
 pub enum ParkError {
@@ -221,10 +221,10 @@ impl EventSource for Park {
         crate::verif::pt("psub.add_timer", crate::verif::addr(self), vid, 0);
         // if we share the same park, the previous timer may wake up it by false
         // if we not deleted the timer in time
-        let timeout_handle = self
-            .timeout
-            .take()
-            .map(|dur| get_scheduler().add_timer(dur, self.wait_co.clone()));
+        let timeout = self.timeout.take();
+        // the timer may fire before the coroutine is stored below: remember when it is due
+        let deadline = timeout.map(|dur| now() + dur.as_nanos() as u64);
+        let timeout_handle = timeout.map(|dur| get_scheduler().add_timer(dur, self.wait_co.clone()));
         self.set_timeout_handle(timeout_handle);
 
         let _g = self.delay_drop();
@@ -243,6 +243,15 @@ impl EventSource for Park {
             // here may have recursive call for subscribe
             // normally the recursion depth is not too deep
             return self.fast_wake_up();
+        }
+
+        // re-check the timeout: if the timer has fired already it found nobody to wake up
+        if deadline.is_some_and(|t| now() >= t) {
+            if let Some(mut co) = self.wait_co.take() {
+                set_co_para(&mut co, io::Error::new(ErrorKind::TimedOut, "timeout"));
+                run_coroutine(co);
+            }
+            return;
         }
 
         // register the cancel data
